@@ -189,9 +189,20 @@ def homogenized [CDiv α] [OfNat α 1] : List α → List α
 /-! ### Euclidean norm (:429-485): needs a square root.  The model is exact: `norm?` is
 defined only when the squared norm has an exact root in the scalar's value set. -/
 
-/-- exact integer square root of a natural number, if it is a perfect square -/
+/-- Newton iteration from above, structurally recursive on the fuel (kernel-reducible) -/
+def sqrtIter (n : Nat) : Nat → Nat → Nat
+  | 0, g => g
+  | fuel + 1, g =>
+    let next := (g + n / g) / 2
+    if next < g then sqrtIter n fuel next else g
+
+/-- candidate integer square root (the fuel `n` is never exhausted) -/
+def isqrt (n : Nat) : Nat := if n ≤ 1 then n else sqrtIter n n n
+
+/-- exact integer square root of a natural number, if it is a perfect square (the candidate is
+*checked*, so nothing depends on the iteration being right) -/
 def natSqrt? (n : Nat) : Option Nat :=
-  let r := Nat.sqrt n
+  let r := isqrt n
   if r * r = n then some r else none
 
 /-- exact square root, if there is one -/
